@@ -47,7 +47,7 @@ func c10Gen(rng *verifsim.RNG, idx int, tier string) *Plan {
 	p.Class = kind
 	switch kind {
 	case "read-recoverable":
-		p.Faults = append(p.Faults, Fault{Seam: "read", From: f, Err: []string{"ENETDOWN", "ENOBUFS", "EINVAL"}[rng.Intn(3)]})
+		p.Faults = append(p.Faults, Fault{Seam: "read", From: f, Err: []string{"ENETDOWN", "ENOBUFS", "EINVAL", "EINTR", "EMFILE"}[rng.Intn(5)]})
 	case "read-permission":
 		p.Faults = append(p.Faults, Fault{Seam: "read", From: f, Err: []string{"EPERM", "EACCES"}[rng.Intn(2)]})
 	case "read-opaque":
